@@ -2,6 +2,7 @@
    Only statements, `exact`, Print Assumptions and non-vacuity examples live here. *)
 From PowHsm Require Import Model.LedgerProtocol Proofs.C13.
 From PowHsm Require Import Gen.Src Proofs.SrcEquivLedger.
+From PowHsm Require Import Gen.SrcM Proofs.SrcEquivDongleM.
 Open Scope N_scope.
 
 (* getPubKey: whatever key bytes the device returns for the requested path are the reply's
@@ -98,3 +99,18 @@ Theorem C13_source_parameters_is_model :
   src_HSM2FirmwareParameters__from_dongle_format (VBytes b) =
   match params_from_dongle b with Some p => POk (params_obj p) | None => PRaise ValueError end.
 Proof. exact src_params_from_dongle_ok. Qed.
+
+(* TIE BY TRANSLATION (device monad): get_public_key of ledger/hsm2dongle.py, as regenerated from the Python source
+   text (Gen/SrcM.v), runs on every world as the model's: one GET_PUBLIC_KEY exchange with the path bytes, the answer
+   hex-encoded verbatim (key_id.to_binary() is an oracle) *)
+Theorem C13_source_get_public_key_is_model :
+  forall (cm : string -> pv -> list pv -> pr pv) (self key_id : pv) (path_bin : bytes) (w : world),
+  cm "to_binary" key_id [] = POk (VBytes path_bin) ->
+  srcm_HSM2Dongle__get_public_key cm self key_id w = mres VStr (get_public_key path_bin w).
+Proof. exact srcm_get_public_key_ok. Qed.
+
+(* get_signer_parameters of the source, as translated, is the model's on every world *)
+Theorem C13_source_get_signer_parameters_is_model :
+  forall (self : pv) (w : world),
+  srcm_HSM2Dongle__get_signer_parameters self w = mres params_obj (get_signer_parameters w).
+Proof. exact srcm_get_signer_parameters_ok. Qed.
